@@ -309,21 +309,21 @@ def run_ext2(ctx):
             hists.append(('cex:' + name, False, from_labels2(labels)))
     text = '\n'.join(l for l in open(os.path.join(SPEC_DIR, 'MC_ZkMirror2.cfg')).read().splitlines()
                      if not l.startswith('INVARIANTS')).replace('MaxEnv = 6', 'MaxEnv = 9')
-    bs, cmd = tlc.simulate(SPEC_DIR, 'ZkMirror2', 'MC_ZkMirror2_gen.cfg', num=60 if ctx.quick else 1500, depth=16,
+    bs, cmd = tlc.simulate(SPEC_DIR, 'ZkMirror2', 'MC_ZkMirror2_gen.cfg', num=60 if ctx.quick else 600, depth=16,
                            seed=ctx.seed * 19 + 1, procs=1 if ctx.quick else 4, timeout=120 if ctx.quick else 600,
                            extra_files={'MC_ZkMirror2_gen.cfg': text})
     ctx.cmds.append(cmd)
     hists += [('tlc', False, from_labels2(b)) for b in bs]
     wtext = '\n'.join(l for l in open(os.path.join(SPEC_DIR, 'MC_ZkMirror2_wd.cfg')).read().splitlines()
                       if not l.startswith('INVARIANTS')).replace('MaxEnv = 6', 'MaxEnv = 9')
-    wbs, cmd = tlc.simulate(SPEC_DIR, 'ZkMirror2', 'MC_ZkMirror2_wdgen.cfg', num=50 if ctx.quick else 1500, depth=16,
+    wbs, cmd = tlc.simulate(SPEC_DIR, 'ZkMirror2', 'MC_ZkMirror2_wdgen.cfg', num=50 if ctx.quick else 600, depth=16,
                             seed=ctx.seed * 23 + 2, procs=1 if ctx.quick else 4, timeout=120 if ctx.quick else 600,
                             extra_files={'MC_ZkMirror2_wdgen.cfg': wtext})
     ctx.cmds.append(cmd)
     hists += [('tlc:wd', True, from_labels2(b)) for b in wbs]
     rng = random.Random(ctx.seed * 7001 + 13)
-    hists += [('rnd', False, gen_random2(rng, rng.choice([12, 25, 40]))) for _ in range(120 if ctx.quick else 3000)]
-    hists += [('rnd:wd', True, gen_random2(rng, rng.choice([12, 25, 40]), wd=True)) for _ in range(100 if ctx.quick else 3000)]
+    hists += [('rnd', False, gen_random2(rng, rng.choice([12, 25, 40]))) for _ in range(120 if ctx.quick else 1200)]
+    hists += [('rnd:wd', True, gen_random2(rng, rng.choice([12, 25, 40]), wd=True)) for _ in range(100 if ctx.quick else 1200)]
     traces = [dict(record2('y%d' % n, h, wd), wd=wd) for n, (_src, wd, h) in enumerate(hists)]
     work = tlc.scratch('verif-zk2fs2-batch-')
     verdicts = []
